@@ -268,6 +268,13 @@ def decompose(test, truth, out):
     elif isinstance(test, ast.BoolOp) and isinstance(test.op, ast.Or) and not truth:
         for v in test.values:
             decompose(v, False, out)
+    elif isinstance(test, ast.Compare) and len(test.ops) == 1 and isinstance(test.ops[0], (ast.IsNot, ast.NotIn)):
+        # facts are recorded in positive form: `a is not b` true is `a is b` false
+        import copy
+
+        pos = copy.copy(test)
+        pos.ops = [ast.Is() if isinstance(test.ops[0], ast.IsNot) else ast.In()]
+        out.append((norm(pos), not truth, pos))
     else:
         out.append((norm(test), truth, test))
 
@@ -306,3 +313,23 @@ def path_calls(path):
 
 def path_end(path):
     return path[-1]
+
+
+_COMPLEMENT = ((" is not ", " is "), (" not in ", " in "))
+
+
+def fact_get(fm, text):
+    """truth of an atomic condition in a fact map, whichever polarity it was recorded in: facts are stored in positive
+    form (`a is b`, `a in b`), a question may be phrased either way"""
+    if text in fm:
+        return fm[text]
+    for neg, pos in _COMPLEMENT:
+        if neg in text:
+            t = text.replace(neg, pos, 1)
+            if t in fm:
+                return not fm[t]
+        elif pos in text:
+            t = text.replace(pos, neg, 1)
+            if t in fm:
+                return not fm[t]
+    return None
